@@ -14,6 +14,8 @@ require (
 	github.com/containerd/continuity v0.4.1 // indirect
 	github.com/pkg/errors v0.9.1 // indirect
 	github.com/planetscale/vtprotobuf v0.6.0 // indirect
+	github.com/sirupsen/logrus v1.8.1 // indirect
+	github.com/tonistiigi/dchapes-mode v0.0.0-20250318174251-73d941a28323 // indirect
 	golang.org/x/sync v0.1.0 // indirect
 )
 
